@@ -211,7 +211,8 @@ def single_hash(ctx, tk):
             tm = fa0.term(n.ast.value, n)
             if any(t.k == "call" and call_name(t) == "isinstance" and truth for t, truth, _ in facts_at(fa0, n)):
                 ok = (tm.k == "call" and call_name(tm) == "len" and tm.a[1] and tm.a[1][0].k == "param" and tm.a[1][0].a[0] == f0.params[1]) or (attr_chain(tm) or ("",))[-1] == "n_rows"
-                ctx.decide("C11.d", f0, "for keys handed over as buckets the modulus is the number of bucket rows", True if ok else False,
+                bad = any(x.k == "call" and x.a[0].k == "attr" and x.a[0].a[1] == "_get_mod" for x in walk(tm)) or any(x.k == "attr" and x.a[1] == "size" for x in walk(tm))
+                ctx.decide("C11.d", f0, "for keys handed over as buckets the modulus is the number of bucket rows", True if ok else (False if bad else None),
                            "modulus is %s: lookups hash into a different number of buckets than the keys are stored in" % (tm,), node=n.ast, key="mod-of-buckets", engine="E5")
     for n in fa0.cfg.stmts():
         if n.kind == "stmt" and isinstance(n.ast, ast.Assign) and isinstance(n.ast.targets[0], ast.Attribute) and n.ast.targets[0].attr == "_value_dtype":
